@@ -6,7 +6,7 @@ from simkit.program import Cfg, gen_program
 from simkit import lifecycle as lc
 
 ID = "C03"
-RUNS = {"quick": 400_000, "thorough": 4_000_000}
+RUNS = {"quick": 280_000, "thorough": 4_000_000}
 SIM_TIME_UNIT = "scripted user operations executed"
 RULE = (
     "each run = one generated program x fault plan, weighted toward ordered pairs/triples of (exception "
